@@ -61,6 +61,12 @@ def cells(tier, seed):
         if sum(bits) == 4:
             continue
         out.append({"kind": "elp", "pattern": list(bits), "ctx": "default"})
+    # batched targets whose batch elements miss different entries (all pairs of patterns over 3 outputs)
+    for b0 in itertools.product([0, 1], repeat=3):
+        for b1 in itertools.product([0, 1], repeat=3):
+            if sum(b0) == 3 or sum(b1) == 3:
+                continue
+            out.append({"kind": "elp", "pattern": [list(b0), list(b1)], "ctx": "default"})
     return out
 
 
@@ -257,12 +263,53 @@ def run_cell(cell, seed):
             "nontrivial": 0 < int(nanmask.sum()) < nanmask.numel()}
 
 
+def run_elp_batch(cell, seed, feats, nanmask):
+    """batch of 2 x 3 targets: 'fill' drops exactly the NaN entries of each batch element, 'mask' (documented) the union over the batch"""
+    fails = Fails()
+    g = util.gen(seed, "c16elpb")
+    b, n = nanmask.shape
+    m, C = util.randn(g, b, n), torch.stack([util.spd(g, n) for _ in range(b)])
+    y0 = util.randn(g, b, n)
+    y = y0.clone()
+    y[nanmask] = float("nan")
+    lik = gpytorch.likelihoods.GaussianLikelihood()
+    s2 = 0.3
+    lik.noise = s2
+    dist = gpytorch.distributions.MultivariateNormal(m, C)
+    var = C.diagonal(dim1=-2, dim2=-1)
+    refs = {"expected_log_prob": -0.5 * (((y0 - m) ** 2 + var) / s2 + math.log(s2) + math.log(2 * math.pi)),
+            "log_marginal": -0.5 * ((y0 - m) ** 2 / (var + s2) + torch.log(var + s2) + math.log(2 * math.pi))}
+    for pol in ("mask", "fill"):
+        f2 = dict(feats, policy=pol, batched=True)
+        obs = (~nanmask.any(0)).expand(b, n) if pol == "mask" else ~nanmask
+        for name, ref in refs.items():
+            with fails.guard(name):
+                nb = len(fails)
+                with S.observation_nan_policy(pol), torch.no_grad():
+                    got = getattr(lik, name)(y, dist)
+                if torch.isnan(got).any():
+                    fails.add(name, "NaN in output")
+                    continue
+                want = (ref * obs).sum(-1)
+                gs = got.sum(-1) if got.dim() == 2 else got
+                if gs.shape != want.shape or util.maxerr(gs, want) > 1e-9:
+                    fails.add(name, f"per batch element sum of terms != sum over the entries that count as observed: err={util.maxerr(gs, want) if gs.shape == want.shape else float('nan'):.3e}",
+                              f"got={gs.tolist()} want={want.tolist()} nan={nanmask.tolist()}")
+            for f in fails[nb:]:
+                f["features"] = f2
+    for f in fails:
+        f.setdefault("features", dict(feats, batched=True))
+    return {"fails": fails, "sig": "elp-batch", "features": feats, "ops": 4, "nontrivial": 0 < int(nanmask.sum()) < nanmask.numel()}
+
+
 def run_elp(cell, seed, feats):
     """Gaussian expected_log_prob / log_marginal terms with NaN targets == the terms of the observed entries"""
     fails = Fails()
+    nanmask = torch.tensor(cell["pattern"], dtype=torch.bool)
+    if nanmask.dim() == 2:
+        return run_elp_batch(cell, seed, feats, nanmask)
     g = util.gen(seed, "c16elp")
     n = 4
-    nanmask = torch.tensor(cell["pattern"], dtype=torch.bool)
     m, C = util.randn(g, n), util.spd(g, n)
     y0 = util.randn(g, n)
     y = y0.clone()
